@@ -714,8 +714,24 @@ func c13HTTP(r *core.Run) {
 		}
 		fnm := core.FuncName(fn)
 		for _, ret := range core.Returns(fn) {
+			// a success return: nil error, or the (value, error) of a helper handed on unchanged — then the helper's
+			// own success returns are examined for the conditions that are not established here
+			var delegate *ssa.Function
 			if !core.IsNilConst(ret.Results[1]) {
-				continue
+				e0, ok0 := ret.Results[0].(*ssa.Extract)
+				e1, ok1 := ret.Results[1].(*ssa.Extract)
+				if !ok0 || !ok1 || e0.Tuple != e1.Tuple || e0.Index != 0 || e1.Index != 1 {
+					continue
+				}
+				hc, isCall := e0.Tuple.(*ssa.Call)
+				if !isCall {
+					continue
+				}
+				g := core.StaticCallee(&hc.Call)
+				if g == nil || !p.IsProdFunc(g) || g.Blocks == nil || g == fn {
+					continue
+				}
+				delegate = g
 			}
 			if len(doCalls) > 0 {
 				nDo++
@@ -754,6 +770,19 @@ func c13HTTP(r *core.Run) {
 					return true, true
 				}
 				ok2, n2, p2 := core.MustPass(fn, ret.Block(), roleAtom)
+				if !(ok2 && n2 > 0) && delegate != nil {
+					ok2, n2 = true, 0
+					for _, gret := range core.Returns(delegate) {
+						if len(gret.Results) != 2 || !core.IsNilConst(gret.Results[1]) {
+							continue
+						}
+						okg, ng, pg := core.MustPass(delegate, gret.Block(), roleAtom)
+						n2 += ng
+						if !(okg && ng > 0) {
+							ok2, p2 = false, pg
+						}
+					}
+				}
 				r.Check(ok2 && n2 > 0, "C13.HTTP", fnm+"#success-needs-role", ret.Pos(), "only assistant/model items are returned", "an item with an arbitrary role is returned as the answer ("+core.FmtPath(p2)+")")
 				doErr := func(x ssa.Value) bool {
 					e, ok := x.(*ssa.Extract)
